@@ -78,7 +78,7 @@ def replay(model, obligation):
         return 'F'
     cl.ResponseFuture = fake
     try:
-        for legacy, s_cl, s_scl, s_fetch, pv, idem in itertools.product((False, True), (None, 0, 3), (None, 8), (FETCH_SIZE_UNSET, 7), (1, 2, 4, 5), (True, False)):
+        for legacy, s_cl, s_scl, s_fetch, pv, idem in itertools.product((False, True), (None, 0, 3), (None, 8), (FETCH_SIZE_UNSET, 7, None), (1, 2, 4, 5), (True, False)):
             s = cl.Session.__new__(cl.Session)
             prof = cl.ExecutionProfile(load_balancing_policy='LBP', retry_policy=RetryPolicy(), consistency_level=5, serial_consistency_level=9,
                                        request_timeout=11.0, row_factory='RF')
